@@ -28,7 +28,7 @@ func (prop) Rule() string {
 	return "cases: `new ft` (flag timeout = T resolutions + a fraction, T in 1..4; occasionally ft <= resolution, where New panics) then 8-45 ops over 1-4 addresses: " +
 		"tick with network status available/unavailable/unknown (runs of T-1..T+2 available ticks are common), flag with a status, unflag, prune with a random seen-subset, " +
 		"sweep (optionally with a failing Blocklister), dump. The sequencer resolution is pinned to 1 h so the background timers never fire; ticks and sweeps go through the hooks. " +
-		"Non-trivial: a blocker exists, >=1 effective flag, >=1 available tick and >=1 sweep; distinct by op-list hash."
+		"Non-trivial: a blocker exists, >=1 effective flag, >=1 available tick and >=1 sweep; distinct by op-list hash. `sweep race` (6 % of the sweeps, fixed case first): while the sweep is inside its first Blocklist call, Unflag is called for every other flagged peer from goroutines of their own (100 ms window); a Blocklist of a peer whose Unflag has returned is clause blocked-after-unflag-returned; model: sweep, then the unflags."
 }
 
 const resolution = int64(time.Hour)
@@ -50,6 +50,8 @@ func (prop) Gen(r *core.Rand, tier string) []core.Case {
 		{ID: "fix-no-refresh", NT: true, Ops: []string{"new " + h2, "flag aa 1", "tick 1", "tick 1", "flag aa 1", "tick 1", "sweep"}},
 		{ID: "fix-unflag-prune", NT: true, Ops: []string{"new " + h1, "flag aa 1", "flag ab01 1", "flag 00 1", "tick 1", "tick 1", "unflag aa", "prune 00", "sweep", "dump", "flag aa 1", "sweep", "tick 1", "tick 1", "sweep"}},
 		{ID: "fix-sweep-fail", NT: true, Ops: []string{"new " + h1, "flag aa 1", "tick 1", "tick 1", "sweep fail", "sweep", "dump"}},
+		// Unflag calls trying to get in while the sweep is inside a Blocklist call: two expired peers and one that is not
+		{ID: "fix-sweep-race", NT: true, Ops: []string{"new " + h1, "flag aa 1", "flag ab01 1", "tick 1", "flag 00 1", "tick 1", "sweep race", "dump", "flag aa 1", "flag ab01 1", "tick 1", "tick 1", "sweep race", "dump", "sweep race"}},
 		{ID: "fix-new-panics", NT: false, Ops: []string{"tick 1", "new " + h, "flag aa 1", "new 5", "sweep", "new -1"}},
 		{ID: "fix-bad", NT: false, Ops: []string{"new " + h2, "tick 3", "flag zz 1", "prune a", "sweep x", "unflag", "new x"}},
 	}
@@ -117,6 +119,9 @@ func (prop) Gen(r *core.Rand, tier string) []core.Case {
 				} else {
 					c.Ops = append(c.Ops, "sweep")
 				}
+				if r.Chance(6) {
+					c.Ops[len(c.Ops)-1] = "sweep race"
+				}
 				sweeps++
 			default:
 				c.Ops = append(c.Ops, "dump")
@@ -134,7 +139,8 @@ type fakeBL struct {
 	mu     sync.Mutex
 	status p2p.NetworkStatus
 	fail   bool
-	calls  []string // hex addresses passed to Blocklist since the last reset
+	calls  []string            // hex addresses passed to Blocklist since the last reset
+	onCall func(boson.Address) // called at the start of every Blocklist call (outside f.mu)
 	durs   []time.Duration
 }
 
@@ -144,6 +150,9 @@ func (f *fakeBL) NetworkStatus() p2p.NetworkStatus {
 	return f.status
 }
 func (f *fakeBL) Blocklist(a boson.Address, d time.Duration, reason string) error {
+	if h := f.onCall; h != nil {
+		h(a) // sweeprace: lets Unflag calls of the other flagged peers try to get in while this call is in progress
+	}
 	f.mu.Lock()
 	defer f.mu.Unlock()
 	f.calls = append(f.calls, a.String())
@@ -273,10 +282,63 @@ func (rn *runner) Step(ctx *core.Ctx, op []string) string {
 			}
 		}
 		return "ok"
-	case op[0] == "sweep" && (len(op) == 1 || len(op) == 2 && op[1] == "fail"):
-		rn.bl.fail = len(op) == 2
+	case op[0] == "sweep" && (len(op) == 1 || len(op) == 2 && (op[1] == "fail" || op[1] == "race")):
+		rn.bl.fail = len(op) == 2 && op[1] == "fail"
 		rn.bl.calls, rn.bl.durs, rn.cbs = nil, nil, nil
-		rn.b.VerifSweep()
+		race := len(op) == 2 && op[1] == "race"
+		if race {
+			// `sweep race`: while the sweep is inside its FIRST Blocklist call, Unflag is called for every other flagged
+			// peer from goroutines of their own, and the call waits up to 100 ms for them to return.  With the sweep
+			// running under `mu` they cannot (they return after the sweep, when those peers are either blocklisted
+			// already or simply unflagged); if a peer's Unflag HAS returned, a later Blocklist of that peer in the same
+			// sweep blocklists a peer that succeeded since it was flagged.
+			var mu sync.Mutex
+			returned := map[string]bool{}
+			var wg sync.WaitGroup
+			first := true
+			rn.bl.onCall = func(a boson.Address) {
+				mu.Lock()
+				isFirst := first
+				first = false
+				if returned[a.String()] {
+					ctx.Fail("blocked-after-unflag-returned", "%s blocklisted by a sweep although its Unflag had returned while the sweep was in progress", a.String())
+				}
+				mu.Unlock()
+				if !isFirst {
+					return
+				}
+				done := make(chan struct{}, len(rn.start))
+				n := 0
+				for o := range rn.start {
+					if o == a.String() {
+						continue
+					}
+					n++
+					wg.Add(1)
+					go func(o string) {
+						defer wg.Done()
+						rn.b.Unflag(boson.MustParseHexAddress(o))
+						mu.Lock()
+						returned[o] = true
+						mu.Unlock()
+						done <- struct{}{}
+					}(o)
+				}
+				deadline := time.After(100 * time.Millisecond)
+				for i := 0; i < n; i++ {
+					select {
+					case <-done:
+					case <-deadline:
+						i = n
+					}
+				}
+			}
+			rn.b.VerifSweep()
+			rn.bl.onCall = nil
+			wg.Wait()
+		} else {
+			rn.b.VerifSweep()
+		}
 		rn.bl.fail = false
 		got := append([]string(nil), rn.bl.calls...)
 		sort.Strings(got)
@@ -309,6 +371,12 @@ func (rn *runner) Step(ctx *core.Ctx, op []string) string {
 		for a, s := range rn.start {
 			if rn.availCnt-s > rn.T {
 				ctx.Fail("not-blocked-after-timeout", "%s flagged for %d available ticks (> timeout %d) but not blocklisted by the sweep", a, rn.availCnt-s, rn.T)
+				delete(rn.start, a)
+			}
+		}
+		if race && len(got) > 0 {
+			// every other flagged peer was unflagged by the racing calls (they took effect after the sweep)
+			for a := range rn.start {
 				delete(rn.start, a)
 			}
 		}
